@@ -58,11 +58,30 @@ def check(ctx):
     case = {'estimator': desc, 'nx': nx, 'nu': nu, 'form': form, 'X': X.tolist(), 'replay': {'rng': snap}}
     try:
         est.fit(X, **kw)
+        if rng.random() < 0.3:
+            # a second regressor built from the SAME Tsvd objects (hyper-parameters may be shared between estimators) is
+            # fitted afterwards on data of another effective rank; the first one's published state must still be its own
+            import sklearn.base
+            other = type(est)(**{k: v for k, v in est.get_params(deep=False).items()})
+            rs2 = np.random.RandomState(rng.randint(0, 2 ** 31 - 1))
+            e2 = 1 if kw.get('episode_feature') else 0
+            X2 = np.array(X, dtype=float)
+            X2[:, e2:] = rs2.randn(X2.shape[0], 1) @ rs2.randn(1, X2.shape[1] - e2) + 1e-6 * rs2.randn(X2.shape[0], X2.shape[1] - e2)
+            try:
+                other.fit(X2, **kw)
+                case['history'] = 'another regressor sharing the Tsvd hyper-parameter objects was fitted afterwards'
+            except Exception:
+                pass
     except Exception as ex:
         return None, case, 'fit raised ' + type(ex).__name__
     A = est.coef_.T[:, :nx]
     lam, V = est.eigenvalues_, est.modes_
     r = lam.shape[0]
+    # the published truncation state belongs to this fit: retained rank = number of reported eigenvalues
+    pub = est.tsvd_ if hasattr(est, 'tsvd_') else est.tsvd_shifted_
+    if pub.singular_values_.shape[0] != r or pub.left_singular_vectors_.shape != (nx, r):
+        return (f'{desc}: the published truncated SVD (retained rank {pub.singular_values_.shape[0]}) does not belong to this '
+                f'fit ({r} eigenvalues_)'), case, None
     scale = max(1.0, np.max(np.abs(A)))
     tol = 1e-7 * scale * max(1.0, np.linalg.cond(V) if V.size else 1.0)
     if np.iscomplexobj(est.coef_):
